@@ -63,6 +63,14 @@ func NewYAMLAccountManager(accountDir string) (*YAMLAccountManager, error) {
 			if err := accountMgr.Update(account, account.Login); err != nil {
 				return nil, fmt.Errorf("migrate account to new access flag format: %v", err)
 			}
+		} else if wantPath := filepath.Join(accountDir, path.Join("/", account.Login)+".yaml"); filePath != wantPath {
+			// A rename of this account was interrupted after its new content was written and before the file was moved.
+			// Finish the move, so that later updates and deletes of the account find its file.
+			if _, err := os.Stat(wantPath); os.IsNotExist(err) {
+				if err := os.Rename(filePath, wantPath); err != nil {
+					return nil, fmt.Errorf("complete interrupted account rename: %v", err)
+				}
+			}
 		}
 
 		accountMgr.accounts[account.Login] = account
